@@ -229,7 +229,9 @@ CHECKS = {
                 "always fails (counts backed by bytes); the parser's object graph is linear in the input when declared counts are "
                 "(parse_cost_linear); the guarded decode loops (stall counter) terminate for EVERY decoder behaviour and read schedule "
                 "within 18*(size + input) + 17 rounds (decompress_loop_terminates, encoded_header_loop_terminates; the old loop's spin is "
-                "kept as a documented theorem); packpositions/bind pairs/name reads are linear. Refuted (known findings): allocation "
+                "kept as a documented theorem); packpositions/bind pairs/name reads are linear; helpers.read_fully never asks the file "
+                "for more than one block nor more than is missing, and makes at most size+1 read() calls, for every file behaviour "
+                "(C05_read_fully_requests_bounded/_call_count over ReadFully.v, whose request list is run against the Python). Refuted (known findings): allocation "
                 "proportional to declared numfiles / sub-stream counts. Harness: structure-aware mutation with re-sealed CRCs, "
                 "truncations/flips/splices, wrong passwords x 14 call-sequence templates in sandboxed children with CPU/RSS limits.",
         "note": "Trusted: Coq kernel; Header.v/Decomp.v/Cost.v hand models tied by correspondence (read counts, loop round counts, "
@@ -237,7 +239,7 @@ CHECKS = {
         "technique": "Coq proof of consumption/termination bounds + sandboxed structure-aware fuzzing as search",
     },
     "C11": {
-        "text": "7zAES key derivation (key3 = key1 for every cycles, hash abstract), coder-property round trip, the writer's information "
+        "text": "7zAES key derivation (key3 = key1 for every cycles, hash abstract; the password enters as its exact UTF-16LE code units, checked with non-normalised passwords), coder-property round trip, the writer's information "
                 "flow (the archive is a layout of metadata and cbc_enc(pad16(stage output)): contents enter only through the cipher; with "
                 "header encryption names enter only through the header cipher text, its length and CRC), IV freshness (disjoint RNG "
                 "slices), decision rules (no password -> PasswordRequired before any decode; wrong password -> error or an explicit CRC "
